@@ -133,7 +133,10 @@ SimpleTrials(F, design, K) ==
         base == ProdFn([i \in 1..Len(F) |-> IF i \in B THEN 1..F[i].nl ELSE {0}])
         filled == { FillSimple(F, S, tr, 1) : tr \in base }
     IN { tr \in filled : /\ \A i \in S : tr[i] # 0
-                         /\ \A i \in S : <<i, tr[i]>> \notin Excluded(K) }
+                         \* READING-1 (code; the documentation only speaks of excluded levels of crossed
+                         \* factors and of derived levels): an excluded level of a non-derived factor
+                         \* outside the crossing does not make a combination infeasible
+                         /\ \A i \in S : F[i].kind = "d" => <<i, tr[i]>> \notin Excluded(K) }
 
 \* R1a: a combination is feasible iff none of its levels is excluded and some single trial shows it
 \* (levels of complex-window factors are never counted infeasible)
